@@ -467,6 +467,11 @@ func c11Run(f []string) (res string) {
 	if len(f) == 5 && f[0] == "lookupfile" {
 		return c11LookupFile(f)
 	}
+	for _, run := range c11ExtraRun {
+		if s, ok := run(f); ok {
+			return s
+		}
+	}
 	if s, ok := exprRun(f); ok {
 		return s
 	}
@@ -537,9 +542,12 @@ func c11LookupCases(r *Rand, n int, big bool) []string {
 
 func c11Stats(cases []string) map[string]int {
 	st := map[string]int{}
+	for _, g := range c11ExtraStats {
+		g(cases, st)
+	}
 	for _, c := range cases {
 		f := strings.Fields(c)
-		if len(f) != 5 {
+		if len(f) != 5 || f[0] == "f64" {
 			continue
 		}
 		if f[0] == "lookupfile" {
@@ -566,6 +574,20 @@ func c11Stats(cases []string) map[string]int {
 	return st
 }
 
+// Hooks for further C11 case families living in files with the build tag `c11` only
+// (c11Gen itself is also the expression generator of C08 and C10 and must stay `expr`-only).
+var c11ExtraGen []func(r *Rand, tier string) []string
+var c11ExtraRun []func(f []string) (string, bool)
+var c11ExtraStats []func(cases []string, st map[string]int)
+
+func c11GenAll(r *Rand, tier string) []string {
+	out := c11Gen(r, tier)
+	for _, g := range c11ExtraGen {
+		out = append(out, g(r, tier)...)
+	}
+	return out
+}
+
 func init() {
-	Register("C11", &Prop{Gen: c11Gen, Run: c11Run, Stats: c11Stats})
+	Register("C11", &Prop{Gen: c11GenAll, Run: c11Run, Stats: c11Stats})
 }
